@@ -13,7 +13,8 @@ class C09(Spec):
     variant = "tsan"
     shard = 1
     timeout = 900
-    env = {"PV_CASE_TIMEOUT": "90", "TSAN_OPTIONS": "halt_on_error=1:exitcode=97"}
+    SAN_LOG = pv.ROOT + "/replays/C09-tsan"
+    env = {"PV_CASE_TIMEOUT": "90", "TSAN_OPTIONS": "halt_on_error=1:exitcode=97:log_path=" + SAN_LOG, "PV_SAN_LOG": SAN_LOG}
     rule = ("Http::Endpoint with 1-6 worker threads serving one shared Rest::Router (tables for GET/POST/PUT/DELETE), built "
             "with -fsanitize=thread; 1-12 client threads each keep one connection and send 5-300 numbered requests rotating "
             "over the four tabled methods and PATCH/OPTIONS (no table); every response must carry its own request's method and "
@@ -42,7 +43,7 @@ class C09(Spec):
 
     def oracle(self, case, impl):
         if impl.startswith("CRASH exit=97"):
-            return "ThreadSanitizer reported a data race inside the framework on %s" % case
+            return "ThreadSanitizer reported a data race inside the framework on %s (%s)" % (case, " ".join(impl.split()[2:]) or "no summary")
         if impl.startswith("HANG"):
             return "shutdown() or the load did not finish on %s (%s)" % (case, impl)
         if impl.startswith("CRASH"):
